@@ -123,6 +123,9 @@ func (t *VT) run(script string) (string, error) {
 			err = stub.SetPrivateDataValidationParameter(arg(1), arg(2), []byte(arg(3)))
 		case "fail":
 			return "", errors.New("scripted failure")
+		case "failx":
+			// an error whose text is not valid UTF-8 (e.g. raw address bytes printed into a message)
+			return "", errors.New("scripted failure \xff\xfe\x80 with raw bytes")
 		case "panic":
 			panic("scripted panic")
 		case "add", "sub":
